@@ -1,5 +1,6 @@
 #include "core.h"
 #include <cstdio>
+#include <cstdlib>
 
 namespace sim {
 
@@ -20,6 +21,11 @@ std::vector<std::string> suite_names()
   for (auto & p : registry()) v.push_back(p.first);
   return v;
 }
+
+static std::string env_or(const char * k, const std::string & d) { const char * e = getenv(k); return (e && *e) ? std::string(e) : d; }
+std::string repo_dir() { return env_or("BXSIM_REPO", "/repo"); }
+std::string verif_dir() { return env_or("BXSIM_VERIF", "/verif"); }
+std::string build_dir() { return env_or("BXSIM_BUILD", verif_dir() + "/build"); }
 
 std::string esc(const std::string & s)
 {
